@@ -183,6 +183,15 @@ def misc_laws(out):
         e = lambda x: x.encode() if isinstance(x, str) else x
         if (u.scheme, u.host, u.port, u.target) != (e(sch), e(host), port, e(tgt)):
             bad("components", f"explicit components changed: {u!r}", {"c": repr((sch, host, port, tgt))})
+    # the "target" request extension replaces the target only: scheme, host, port and hence the origin stay
+    for u_, port_ in (("http://example.com:8080/x", 8080), ("https://example.com/x", None), ("https://[::1]:8443/x", 8443), ("http://example.com:80/x", 80)):
+        for tgt in (b"/y?z=1", b"*"):
+            n += 1
+            r = httpcore.Request("GET", u_, extensions={"target": tgt})
+            base = httpcore.URL(u_)
+            if (r.url.scheme, r.url.host, r.url.port, r.url.target) != (base.scheme, base.host, base.port, tgt) or r.url.origin != base.origin:
+                bad("target-extension", f"Request({u_!r}, target extension {tgt!r}).url = {r.url!r}, origin {r.url.origin}; expected only the target to change (origin {base.origin})",
+                    {"url": u_, "target": tgt.decode()})
     # content kinds: Host always first when synthesised; CL for bytes, TE for iterators, nothing for None,
     # nothing added when the caller supplied the header (any case)
     url = httpcore.URL("http://h:81/")
@@ -202,6 +211,9 @@ def misc_laws(out):
     if hs != [(b"X", b"1"), (b"hOsT", b"me")]:
         bad("default-headers", f"Host supplied by caller but headers became {hs!r}", {})
     return n
+
+
+WIRE_HEADERS = [("X-Dup", "1"), ("x-other", "o"), ("X-Dup", "2"), ("x-dup", "3"), ("X-Empty", "")]
 
 
 def wire_host(out):
@@ -225,7 +237,7 @@ def wire_host(out):
         if variant == "sync":
             def prog():
                 try:
-                    r = pool.request("GET", u)
+                    r = pool.request("GET", u, headers=list(WIRE_HEADERS))
                     res.append(("ok", r.status))
                 except Exception as e:
                     res.append(("exc", f"{type(e).__name__}: {e}"))
@@ -234,7 +246,7 @@ def wire_host(out):
         else:
             async def aprog():
                 try:
-                    r = await pool.request("GET", u)
+                    r = await pool.request("GET", u, headers=list(WIRE_HEADERS))
                     res.append(("ok", r.status))
                 except Exception as e:
                     res.append(("exc", f"{type(e).__name__}: {e}"))
@@ -244,6 +256,15 @@ def wire_host(out):
             seen = [v for c in topo.all_h1_conns() for r in c.parser.requests for k, v in r.headers if k.lower() == b"host"]
         else:
             seen = [v for c in topo.all_h2_conns() for sid in c.order for k, v in c.streams[sid].headers if k in (b":authority", b"host")]
+        if proto == "h1":
+            wire_hdrs = [(k, v) for c in topo.all_h1_conns() for r in c.parser.requests for k, v in r.headers if k.lower() != b"host"]
+            want_hdrs = [(k.encode(), v.encode()) for k, v in WIRE_HEADERS]
+        else:
+            wire_hdrs = [(k, v) for c in topo.all_h2_conns() for sid in c.order for k, v in c.streams[sid].headers if not k.startswith(b":")]
+            want_hdrs = [(k.lower().encode(), v.encode()) for k, v in WIRE_HEADERS]
+        if wire_hdrs != want_hdrs:
+            out.append({"oracle": "C19.wire-headers", "message": f"{u} over {ct} ({variant}): header list on the wire {wire_hdrs}, the caller gave {WIRE_HEADERS} (order and duplicates must be kept)",
+                        "signature": {"harness": "wire-host", "kind": "wire-headers", "proto": proto}, "case": {"wire": True}})
         if res[:1] != [("ok", 200)] or seen != [exp]:
             out.append({"oracle": "C19.wire-host", "message": f"{u} over {ct} ({variant}): result {res}, server saw Host/:authority {seen}, expected {[exp]}",
                         "signature": {"harness": "wire-host", "kind": "wire-host", "proto": proto, "ipv6": host.startswith("[")},
